@@ -36,15 +36,22 @@ NewRecs == << [n |-> <<<<105>>>>, t |-> 1, c |-> 1, ttl |-> <<0, 0, 0, 9>>, name
 \* (target, source, suffix mode): raw names over the Gen_S1 name universe
 Renames == << [t |-> <<2, 122, 122, 0>>, s |-> <<1, 97, 0>>, x |-> TRUE],
               [t |-> <<1, 99, 0>>, s |-> <<1, 66, 1, 97, 0>>, x |-> FALSE],
-              [t |-> <<63>> \o [k \in 1..63 |-> 116] \o <<63>> \o [k \in 1..63 |-> 116] \o <<63>> \o [k \in 1..63 |-> 116] \o <<0>>, s |-> <<1, 97, 0>>, x |-> TRUE] >>
+              [t |-> <<63>> \o [k \in 1..63 |-> 116] \o <<63>> \o [k \in 1..63 |-> 116] \o <<63>> \o [k \in 1..63 |-> 116] \o <<60>> \o [k \in 1..60 |-> 116] \o <<0>>,
+               s |-> <<1, 97, 0>>, x |-> TRUE] >>          \* a 254-byte target: any kept prefix overflows
 Secs == {"Q", "AN", "NS", "AR", "E"}          \* "E": the EDNS options
 NoCur == [open |-> FALSE, sec |-> "Q", incl |-> FALSE, c |-> [off |-> 0, ne |-> 0, nx |-> 0, tomb |-> TRUE]]
+
+\* the sample always contains a compressible message whose OPT record carries options and is preceded by records
+WithOptions(j) == LET m == Msg(Index(j)) IN
+  /\ \E k \in 1..Len(m.ar) : m.ar[k].type = TOPT /\ Len(m.ar[k].d.opts) >= 1
+  /\ Len(m.an) >= 1 /\ Encode(m, "greedy") # Encode(m, "plain")
+WithOptionsIdx == CHOOSE j \in 1..400 : WithOptions(j)
 
 VARIABLES p, v, cur, n, last, cq        \* cq: the cached question, <<>> or <<value>>
 mvars == <<p, v, cur, n, last, cq, i, done>>
 
 MCInit == /\ i = 0 /\ done = 0 /\ n = 0 /\ cur = NoCur /\ cq = <<>> /\ last = [op |-> "init", ok |-> TRUE, sec |-> "Q", idx |-> 0, arg |-> 0, before |-> <<>>]
-          /\ \E kk \in 1..NS1, lay \in {"plain", "greedy", "tails"} :
+          /\ \E kk \in (1..NS1) \cup {WithOptionsIdx}, lay \in {"plain", "greedy", "tails"} :
                /\ p = Encode(Msg(Index(kk)), lay)
                /\ v = ViewMC(p, lay # "plain")
 
@@ -123,6 +130,17 @@ CursorSound == (cur.open /\ ~cur.c.tomb) =>
 
 \* a filled cache holds the question of the bytes
 CacheSound == cq # <<>> => QD(p) = 1 /\ cq[1] = CacheOf(p)
+
+\* Reachability controls (non-vacuity): each of these "never" statements must be REFUTED by TLC
+NeverRenamed == ~(last.op = "ren" /\ last.ok /\ CMsgX(p) # CMsgX(last.before))
+NeverRenameOverflow == ~(last.op = "ren" /\ ~last.ok)
+NeverOptInserted == ~(last.op = "ins" /\ last.ok /\ last.arg = 2)
+NeverOptRefused == ~(last.op = "ins" /\ ~last.ok /\ last.arg = 2)
+NeverOptionCursorDecompresses == ~(last.op = "unc" /\ last.sec = "E" /\ last.ok /\ p # last.before)
+NeverDecompressFirst == ~(last.op \in {"set", "del"} /\ last.ok /\ ~PointerFreeT(last.before))
+NeverTombstoneRefused == ~(last.op \in {"set", "del"} /\ ~last.ok /\ cur.c.tomb)
+NeverRestart == ~(last.op = "next" /\ cur.open /\ ~cur.c.tomb /\ n >= 3)
+NeverCacheReset == ~(last.op \in {"set", "del", "ren"} /\ last.ok /\ cq = <<>> /\ n >= 2)
 
 \* the decoded message after the last step, given the one before
 Effect ==
